@@ -115,7 +115,11 @@ def sim_cases(draw):
             acts.append({'t': echo_off, 'op': 'echo', 'on': False})
     return {'kind': kind, 'entry': entry, 'T': Tsel, 'default_T': default_T, 'sched': sched, 'actions': acts,
             'tm': tm, 'te': te, 'echo_off': echo_off, 'use_poll': draw(st.booleans()),
-            'size': draw(st.sampled_from([1, 100, 2000]))}
+            'size': draw(st.sampled_from([1, 100, 2000])),
+            # the timeout the socket object already carries when it is handed to pexpect (socket transport only)
+            'sock_timeout': draw(st.sampled_from([None, None, 0.0, 0.2, 11.0])) if kind == 'socket' else None,
+            # (a long delayafterread makes the time needed to *read* arrived data significant: only where no match is expected)
+            'delayafterread': draw(st.sampled_from([None, None, 0.0001] + ([0.01] if not (sched.startswith('match') or sched == 'exit') else [])))}
 
 
 def expected(case, observed=None):
@@ -151,7 +155,7 @@ def expected(case, observed=None):
         if tm is not None or te is not None or first_data is not None:
             return {'kind': 'any'}          # something arrives a few us in: either answer is acceptable
         return {'kind': 'timeout'}
-    band = 1e-3
+    band = 1e-3 + 20 * (case.get('delayafterread') or 0)      # reading what arrived takes (slept) time as well
     if tm is not None and abs(tm - Teff) <= band:
         return {'kind': 'any'}
     if te is not None and abs(te - Teff) <= band:
@@ -198,7 +202,9 @@ def check_sim(case, col=None):
     try:
         with sim.installed():
             sp = simkernel.make_reader(sim, use_poll=case['use_poll'], timeout=case['default_T'], maxread=case['size'])
-            sp.delayafterread = None
+            sp.delayafterread = case.get('delayafterread')      # the sleeps it causes are part of the accounted overhead
+            if case['kind'] == 'socket':
+                sim.sock_proxy._timeout = case.get('sock_timeout')
             t0 = sim.now
             c0 = sim.ncalls
             l0 = len(sim.log)
